@@ -364,7 +364,7 @@ def validate_traces(trace_module, traces, cfg=None, timeout=900, env=None, chunk
     return verdicts, stats
 
 
-def binding_selftest(trace_module, traces, corrupt, env=None, n=6, timeout=300):
+def binding_selftest(trace_module, traces, corrupt, env=None, n=6, timeout=300, cfg=None):
     """anti-vacuity: take up to n accepted traces, corrupt one recorded field in each (function `corrupt(trace)` returns a
     modified deep copy or None if it cannot corrupt that trace) and require the trace spec to reject every one.
     Returns {'corrupted': k, 'rejected': r}; r < k means the trace spec does not constrain that field."""
@@ -379,7 +379,7 @@ def binding_selftest(trace_module, traces, corrupt, env=None, n=6, timeout=300):
             break
     if not bad:
         return {'corrupted': 0, 'rejected': 0}
-    v, _ = validate_traces(trace_module, bad, env=env, timeout=timeout, chunk=max(1, len(bad)))
+    v, _ = validate_traces(trace_module, bad, env=env, timeout=timeout, chunk=max(1, len(bad)), cfg=cfg)
     rej = sum(1 for t in bad if v[t['tid']][0] != 'ACCEPT')
     if rej != len(bad):
         raise MachineryError('binding self-test: %s accepted %d of %d corrupted traces' % (trace_module, len(bad) - rej, len(bad)))
